@@ -42,6 +42,7 @@ class Check:
         self.min_counts = {}    # rule -> (found, required)
         self._seen = set()
         self.rule_prefix = ""       # set by a check that re-uses another property's rule functions
+        self.variant = ""           # set by run_check while the rules run on a build variant of the tree (e.g. "ndebug.")
         self.rule_filter = None     # callable(rule) -> bool
 
     # ---- recording --------------------------------------------------------
@@ -61,7 +62,7 @@ class Check:
         """Record one obligation. ok: True (discharged) / False (refuted)."""
         if self.rule_filter is not None and not self.rule_filter(rule):
             return ok
-        rule = self.rule_prefix + rule
+        rule = self.variant + self.rule_prefix + rule
         key = (rule, instance, bool(ok), loc)
         if key in self._seen:
             return ok
@@ -74,14 +75,14 @@ class Check:
         """The rule cannot decide this instance (unrecognised idiom, top)."""
         if self.rule_filter is not None and not self.rule_filter(rule):
             return
-        rule = self.rule_prefix + rule
+        rule = self.variant + self.rule_prefix + rule
         self.inconclusive.append({"rule": rule, "instance": instance, "why": why, "loc": loc})
 
     def expect(self, rule, what, found, required):
         """Non-vacuity: fewer instances than confirmed by hand is analysis-broken."""
         if self.rule_filter is not None and not self.rule_filter(rule):
             return
-        self.min_counts["%s:%s" % (rule, what)] = (found, required)
+        self.min_counts["%s%s:%s" % (self.variant, rule, what)] = (found, required)
         if found < required:
             self.unknown(rule, what, "rule matched %d instances, %d were confirmed by reading the code; "
                          "anchor vanished or idiom changed" % (found, required))
@@ -202,10 +203,35 @@ class Check:
         return status
 
 
+# Build variants every check is also decided on (prefix of the rule ids, extra compiler flags).  NDEBUG: assert() is
+# compiled out, so nothing the analysis treats as "cannot happen" may be the only thing between an input and a violation.
+VARIANTS = [("ndebug.", ["-DNDEBUG"])]
+VARIANT_SKIP_QUICK = ("C08", "C16")     # the two expensive checks run their variants in the thorough tier only
+
+
 def run_check(pid, runner, tier, seed):
     chk = Check(pid, tier, seed)
     try:
         runner(chk)
+        if not os.environ.get("VERIF_NO_VARIANTS") and (tier == "thorough" or pid not in VARIANT_SKIP_QUICK):
+            from . import build
+            for prefix, flags in VARIANTS:
+                chk.rule_filter, chk.rule_prefix, chk.variant = None, "", prefix
+                build.OVERLAY[:] = list(flags)
+                try:
+                    runner(chk)
+                finally:
+                    build.OVERLAY[:] = [f for f in os.environ.get("VERIF_OVERLAY", "").split() if f]
+                    chk.variant = ""
+            for name in ("assumptions", "not_decided", "trusted_base"):
+                seen, out = set(), []
+                for x in getattr(chk, name):
+                    if x not in seen:
+                        seen.add(x)
+                        out.append(x)
+                setattr(chk, name, out)
+            chk.assumptions.append("every rule is decided twice: on the default build and with -DNDEBUG (rule ids prefixed 'ndebug.'), "
+                                   "so no verdict rests on an assert() that a release build compiles out")
     except AnalysisError as e:
         chk.rule_filter, chk.rule_prefix = None, ""     # an imported rule set may have been active: never filter this
         chk.unknown("analysis", "engine", str(e))
